@@ -4,6 +4,7 @@ package c06
 
 import (
 	"context"
+	"errors"
 	"fmt"
 	"os"
 	"runtime"
@@ -15,6 +16,7 @@ import (
 	"testing/synctest"
 	"time"
 
+	"github.com/libp2p/go-libp2p/core/crypto"
 	"github.com/libp2p/go-libp2p/core/event"
 	"github.com/libp2p/go-libp2p/core/network"
 	"github.com/libp2p/go-libp2p/core/peer"
@@ -56,11 +58,16 @@ type connSpec struct {
 	closeInConnected    int    // -1 none, else notifiee index that closes the conn from inside Connected
 	closeInDisconnected bool
 	streams             []int // instants of inbound streams
+	// closeErr: the transport connection's Close / CloseWithError report an error (the connection is
+	// shut down all the same)
+	closeErr bool
 }
 
 type scenario struct {
 	conns   []connSpec
 	closeAt int // -1: no Swarm.Close during the schedule
+	// metrics: the swarm is built with a metrics tracer (connections are wrapped on admission)
+	metrics bool
 	// closeAgain >= 0: a second Swarm.Close call that many ms after the first (0: the same instant,
 	// racing with it); every Close call, not only the first, returns only after the notifications
 	closeAgain int
@@ -103,8 +110,25 @@ func init() {
 	})
 }
 
+var errTransportClose = errors.New("transport: close reported an error")
+
+// nopTracer is a swarm metrics tracer that records nothing.
+type nopTracer struct{}
+
+func (nopTracer) OpenedConnection(network.Direction, crypto.PubKey, network.ConnectionState, ma.Multiaddr) {
+}
+func (nopTracer) ClosedConnection(network.Direction, time.Duration, network.ConnectionState, ma.Multiaddr) {
+}
+func (nopTracer) CompletedHandshake(time.Duration, network.ConnectionState, ma.Multiaddr) {}
+func (nopTracer) FailedDialing(ma.Multiaddr, error, error)                                {}
+func (nopTracer) DialCompleted(bool, int, time.Duration)                                  {}
+func (nopTracer) DialRankingDelay(time.Duration)                                          {}
+func (nopTracer) UpdatedBlackHoleSuccessCounter(string, swarm.BlackHoleState, int, float64) {
+}
+
 func drawScenario(rt *rapid.T) *scenario {
 	sc := &scenario{closeAt: -1, closeAgain: -1}
+	sc.metrics = rapid.IntRange(0, 2).Draw(rt, "metrics") == 0
 	n := rapid.IntRange(1, 5).Draw(rt, "nconns")
 	for i := 0; i < n; i++ {
 		c := connSpec{
@@ -130,6 +154,7 @@ func drawScenario(rt *rapid.T) *scenario {
 			c.closeInConnected = rapid.IntRange(0, 1).Draw(rt, "which")
 		}
 		c.closeInDisconnected = rapid.IntRange(0, 6).Draw(rt, "closeInDisconnected") == 0
+		c.closeErr = rapid.IntRange(0, 3).Draw(rt, "closeErr") == 0
 		ns := rapid.IntRange(0, 2).Draw(rt, "nstreams")
 		for s := 0; s < ns; s++ {
 			c.streams = append(c.streams, c.admitAt+rapid.SampledFrom([]int{0, 0, 1, 2, 5, 12}).Draw(rt, "streamRel"))
@@ -168,10 +193,17 @@ func drawScenario(rt *rapid.T) *scenario {
 func (sc *scenario) String() string {
 	var b strings.Builder
 	for i, c := range sc.conns {
-		fmt.Fprintf(&b, "c%d{p%d lim=%v in=%v admit=%d rm=%s@%d block=%v dblock=%v cic=%d cid=%v streams=%v} ", i, c.peer, c.limited, c.inbound, c.admitAt, c.removal, c.removeAt,
+		fmt.Fprintf(&b, "c%d{p%d lim=%v in=%v admit=%d rm=%s@%d block=%v dblock=%v cic=%d cid=%v streams=%v", i, c.peer, c.limited, c.inbound, c.admitAt, c.removal, c.removeAt,
 			c.block, c.dblock, c.closeInConnected, c.closeInDisconnected, c.streams)
+		if c.closeErr {
+			b.WriteString(" closeErr")
+		}
+		b.WriteString("} ")
 	}
 	fmt.Fprintf(&b, "swarmClose=%d", sc.closeAt)
+	if sc.metrics {
+		b.WriteString(" metrics")
+	}
 	if sc.closeAgain >= 0 {
 		fmt.Fprintf(&b, "(+again@%d)", sc.closeAt+sc.closeAgain)
 	}
@@ -344,6 +376,19 @@ func runScenario(t *testing.T, rt *rapid.T, name string, sc *scenario) {
 	} else {
 		currentYields.Store(nil)
 	}
+	if sc.metrics {
+		labels["swarm-with-metrics-tracer"] = true
+		for _, c := range sc.conns {
+			if c.limited {
+				labels["limited-conn-under-metrics-tracer"] = true
+			}
+		}
+	}
+	for _, c := range sc.conns {
+		if c.closeErr {
+			labels["transport-close-reports-error"] = true
+		}
+	}
 	defer currentYields.Store(nil)
 	hx.Bubble(t, rt, func() {
 		local := keys.Ed(0)
@@ -372,10 +417,17 @@ func runScenario(t *testing.T, rt *rapid.T, name string, sc *scenario) {
 			if sp := specs[addr.String()]; sp != nil {
 				lim := sp.limited
 				sc.Limited = &lim
+				if sp.closeErr {
+					sc.CloseErr = errTransportClose
+				}
 			}
 			return sc
 		})
-		sw, err := swarm.NewSwarm(local.ID, ps, bus, swarm.WithUDPBlackHoleSuccessCounter(nil), swarm.WithIPv6BlackHoleSuccessCounter(nil))
+		swOpts := []swarm.Option{swarm.WithUDPBlackHoleSuccessCounter(nil), swarm.WithIPv6BlackHoleSuccessCounter(nil)}
+		if sc.metrics {
+			swOpts = append(swOpts, swarm.WithMetricsTracer(nopTracer{}))
+		}
+		sw, err := swarm.NewSwarm(local.ID, ps, bus, swOpts...)
 		if err != nil {
 			rt.Fatalf("swarm: %v", err)
 		}
@@ -447,6 +499,9 @@ func runScenario(t *testing.T, rt *rapid.T, name string, sc *scenario) {
 					tr = set.Circuit
 				}
 				tc := tr.NewConn(peerID(sp.peer), addr, sp.limited)
+				if sp.closeErr {
+					tc.CloseErr = errTransportClose
+				}
 				tconns[i] = tc
 				at(sp.admitAt, func() { lis.Inject(tc) })
 			} else {
@@ -712,7 +767,17 @@ func runScenario(t *testing.T, rt *rapid.T, name string, sc *scenario) {
 					// truthfulness of the state itself
 					direct, limited := false, false
 					for id := range open {
-						if c, _ := byID.Load(id); c.(network.Conn).Stat().Limited {
+						// what the transport produced decides (the harness' own record), not what the swarm reports
+						c, _ := byID.Load(id)
+						sp := specs[c.(network.Conn).RemoteMultiaddr().String()]
+						isLimited := c.(network.Conn).Stat().Limited
+						if sp != nil {
+							if sp.limited != isLimited {
+								fail("connection %s to peer %d: the transport produced limited=%v, the swarm's connection reports Limited=%v", id, pi, sp.limited, isLimited)
+							}
+							isLimited = sp.limited
+						}
+						if isLimited {
 							limited = true
 						} else {
 							direct = true
